@@ -28,7 +28,7 @@ func (m *Mutex) Lock() {
 	case 2:
 		return
 	}
-	vsched.Point(vsched.KLock, uintptr(unsafe.Pointer(m)), "Mutex.Lock", func() bool { return !m.locked })
+	vsched.Point(vsched.KLock, uintptr(unsafe.Pointer(m)), "Mutex.Lock", m)
 	m.locked = true
 	raceAcquire(unsafe.Pointer(m))
 }
@@ -66,6 +66,11 @@ func (m *Mutex) Unlock() {
 	m.locked = false
 }
 
+// Enabled implements vsched.Enabler.
+//
+//go:norace
+func (m *Mutex) Enabled(vsched.Kind) bool { return !m.locked }
+
 // RWMutex mirrors sync.RWMutex including writer preference: once a writer has
 // announced itself new readers wait and Try* fail.
 type RWMutex struct {
@@ -75,6 +80,16 @@ type RWMutex struct {
 	pending bool // a writer has announced itself and waits for the readers to leave
 	rsem    byte // race-edge addresses, as in sync.RWMutex (readerSem / writerSem)
 	wsem    byte
+}
+
+// Enabled implements vsched.Enabler.
+//
+//go:norace
+func (m *RWMutex) Enabled(k vsched.Kind) bool {
+	if k == vsched.KLockWait {
+		return m.readers == 0
+	}
+	return !m.writer && !m.pending
 }
 
 //go:norace
@@ -87,10 +102,10 @@ func (m *RWMutex) Lock() {
 		return
 	}
 	p := uintptr(unsafe.Pointer(m))
-	vsched.Point(vsched.KLock, p, "RWMutex.Lock", func() bool { return !m.writer && !m.pending })
+	vsched.Point(vsched.KLock, p, "RWMutex.Lock", m)
 	if m.readers > 0 {
 		m.pending = true
-		vsched.Point(vsched.KLockWait, p, "RWMutex.Lock(wait readers)", func() bool { return m.readers == 0 })
+		vsched.Point(vsched.KLockWait, p, "RWMutex.Lock(wait readers)", m)
 		m.pending = false
 	}
 	m.writer = true
@@ -141,7 +156,7 @@ func (m *RWMutex) RLock() {
 	case 2:
 		return
 	}
-	vsched.Point(vsched.KRLock, uintptr(unsafe.Pointer(m)), "RWMutex.RLock", func() bool { return !m.writer && !m.pending })
+	vsched.Point(vsched.KRLock, uintptr(unsafe.Pointer(m)), "RWMutex.RLock", m)
 	m.readers++
 	raceAcquire(unsafe.Pointer(&m.rsem))
 }
@@ -211,6 +226,11 @@ func (w *WaitGroup) Add(d int) {
 
 func (w *WaitGroup) Done() { w.Add(-1) }
 
+// Enabled implements vsched.Enabler.
+//
+//go:norace
+func (w *WaitGroup) Enabled(vsched.Kind) bool { return w.n == 0 }
+
 //go:norace
 func (w *WaitGroup) Wait() {
 	switch vsched.Mode() {
@@ -220,7 +240,7 @@ func (w *WaitGroup) Wait() {
 	case 2:
 		return
 	}
-	vsched.Point(vsched.KWGWait, uintptr(unsafe.Pointer(w)), "WaitGroup.Wait", func() bool { return w.n == 0 })
+	vsched.Point(vsched.KWGWait, uintptr(unsafe.Pointer(w)), "WaitGroup.Wait", w)
 	raceAcquire(unsafe.Pointer(w))
 }
 
@@ -246,15 +266,23 @@ func (o *Once) Do(f func()) {
 	case 2:
 		return
 	}
-	vsched.Point(vsched.KOnce, uintptr(unsafe.Pointer(o)), "Once.Do", func() bool { return o.state != 1 })
+	vsched.Point(vsched.KOnce, uintptr(unsafe.Pointer(o)), "Once.Do", o)
 	if o.state == 2 {
 		raceAcquire(unsafe.Pointer(o))
 		return
 	}
 	o.state = 1
-	defer func() {
-		raceRelease(unsafe.Pointer(o))
-		o.state = 2
-	}()
+	defer o.finishDo()
 	f()
 }
+
+//go:norace
+func (o *Once) finishDo() {
+	raceRelease(unsafe.Pointer(o))
+	o.state = 2
+}
+
+// Enabled implements vsched.Enabler.
+//
+//go:norace
+func (o *Once) Enabled(vsched.Kind) bool { return o.state != 1 }
